@@ -1,10 +1,12 @@
 import GomlVerif.Driver.C05
 import GomlVerif.Driver.C13
 import GomlVerif.Driver.C15
+import GomlVerif.Driver.C16
 
 def main (args : List String) : IO UInt32 := do
   match args with
   | ["c05"] => Goml.Driver.C05.main; return 0
   | ["c13"] => Goml.Driver.C13.main; return 0
   | ["c15"] => Goml.Driver.C15.main; return 0
+  | ["c16"] => Goml.Driver.C16.main; return 0
   | _ => IO.eprintln "usage: gomlmodel <c05|…> < lines"; return 2
